@@ -48,7 +48,7 @@ abbrev DeadQuiet (o : Bytes) (m : CM Unit) (c : Conn) : Prop :=
 
 theorem sendHeaders_closed (o : Bytes) sid hs es pw pd pe (c : Conn) (hc : CQ o c) :
     DeadQuiet o (sendHeaders sid hs es pw pd pe) c := by
-  simp only [sendHeaders, openOutboundStreams]; closed_auto
+  simp only [sendHeaders, sendHeadersTail, addPriority, openOutboundStreams]; closed_auto
 theorem sendData_closed (o : Bytes) sid d es pad (c : Conn) (hc : CQ o c) :
     DeadQuiet o (sendData sid d es pad) c := by
   simp only [sendData, sendDataCore, localFlowControlWindow]; closed_auto
